@@ -223,6 +223,29 @@ def run(ctx):
                         known_empty.append(item)
                     else:
                         failures.append(item)
+            # the dictionary view is consistent with itself and with the list of properties and sub-sections (model-free):
+            # membership of each of the 8 pool names <=> iteration yields it; len = number of properties
+            dv = rest[len(state) + 1:]
+            if state and state[0] >= 0 and len(dv) >= 2 and dv[0] >= 0:
+                nk = dv[1]
+                keys, member = dv[2:2 + nk], dv[2 + nk:2 + nk + 8]
+                if dv[0] != state[0]:
+                    failures.append(("len(section) is not the number of its properties", {"history": ops[:ops.index(o) + 1]},
+                                     {"len": dv[0], "properties": state[0]}))
+                elif len(member) == 8 and any((k in keys) != bool(member[k]) for k in range(8)):
+                    k = [k for k in range(8) if (k in keys) != bool(member[k])][0]
+                    failures.append(("membership (key in section) disagrees with iteration over the section",
+                                     {"history": ops[:ops.index(o) + 1]}, {"name_index": k, "iterated": k in keys, "contained": bool(member[k])}))
+                if o[0] == "dget" and res[0] in (1, 4):
+                    # section[key] on a key that names a property returns that property's values, never the sub-section
+                    names_of_props = []
+                    pos = 1
+                    for _ in range(state[0]):
+                        names_of_props.append(state[pos])
+                        pos += 3 + 2 * state[pos + 2]
+                    if o[1] in names_of_props and res[0] == 4:
+                        failures.append(("section[key] returns the sub-section although a property of that name exists",
+                                         {"history": ops[:ops.index(o) + 1]}, {"name_index": o[1]}))
             if state and state[0] == -98:
                 failures.append(("two objects of the one section show different properties or values", {"history": ops[:ops.index(o) + 1]}, None))
             if state and state[0] == -99:
